@@ -24,6 +24,7 @@ RULE = ("operation sequences of length 2..7 on the real default stack [bottom pr
 RULE += (" Keep-alive rounds also with a ping of the application's own and with a stray pong.")
 RULE += (" Stanza refused by the coder at its last attribute (send-unencodable-late); the frame of a follow-up send is compared with the stanza's own encoding.")
 RULE += (" stream 'login': the server's <success> with the application's callback raising (same / other thread): error reported, the layers below told about the login once, keep-alive started, later frames and sends processed.")
+RULE += (" Failure kind 'send-interrupted': the write at the bottom is cut short by an interrupt (a BaseException that is no Exception: Ctrl-C, sys.exit() in a callback) — no lock stays held either.")
 ASSUMPTIONS = ["operations are issued one at a time (by any thread): locks are threading.Lock without owner, so a held lock at quiescence means "
                "every later acquire blocks forever — detected deterministically by tracked locks instead of timeouts",
                "the sequence streams issue one operation at a time; concurrent receives (with a failure while another thread's frame is queued) are run "
@@ -38,6 +39,7 @@ SEND_KINDS = {
     "send-unencodable-late": IDX["coder"],       # the coder refuses the stanza after it has encoded most of it (a bad value in the LAST attribute)
     "send-not-ready": IDX["noise"],
     "send-write-error": IDX["bottom"],
+    "send-interrupted": IDX["bottom"],           # the write is cut short by an interrupt (KeyboardInterrupt / SystemExit raised in the writing thread): not an Exception
     "send-oversized": IDX["segments"],
 }
 RECV_KINDS = {
@@ -55,14 +57,21 @@ class Boom(Exception):
     pass
 
 
+class Interrupted(KeyboardInterrupt):
+    """what Ctrl-C or sys.exit() in a layer's callback raises in the thread that is sending: a BaseException that is no Exception"""
+
+
 class Bottom(Probe):
     armed = False
+    interrupt = False     # the next armed write is interrupted instead of failing with an error
     write_failed = False  # a socket write failed since the flag was last cleared (the connection is gone)
     fail_tags = ()        # a write whose bytes contain one of these fails (a pong for a particular ping, whenever it is flushed)
 
     def send(self, data):
         if self.armed or any(t in bytes(data) for t in self.fail_tags):
             self.write_failed = True
+            if self.interrupt:
+                raise Interrupted("interrupted")
             raise Boom("write error")
         self.sent.append(data)
 
@@ -119,6 +128,8 @@ def cases(chk):
     yield "seq", {"ops": ["send-unencodable-late", "send-ok", "send-ok"], "threads": [0, 1, 0]}
     yield "seq", {"ops": ["send-ok", "send-unencodable-late", "recv-ping", "send-ok"], "threads": [0, 0, 1, 1]}
     yield "seq", {"ops": ["send-write-error", "send-ok"], "threads": [0, 0]}
+    yield "seq", {"ops": ["send-interrupted", "send-ok"], "threads": [0, 1]}
+    yield "seq", {"ops": ["send-ok", "send-interrupted", "recv-ping", "send-ok"], "threads": [0, 1, 0, 0]}
     yield "seq", {"ops": ["recv-callback-raises", "recv-ok"], "threads": [0, 1]}
     yield "seq", {"ops": ["recv-undecodable", "recv-ok", "send-ok"], "threads": [0, 0, 0]}
     yield "seq", {"ops": ["recv-ping-write-error", "recv-ping", "send-ok"], "threads": [0, 1, 0]}
@@ -985,7 +996,8 @@ def run_case(chk, stream, case):
                 sent_ok.append(seq)
             queued_kinds.append((seq, base))
             continue
-        bottom.armed = kind == "send-write-error"
+        bottom.armed = kind in ("send-write-error", "send-interrupted")
+        bottom.interrupt = kind == "send-interrupted"
         if kind == "recv-ping-write-error":
             bottom.fail_tags = tuple(bottom.fail_tags) + (b"pingid-%d-x" % seq,)
         top.armed = False
@@ -1031,9 +1043,10 @@ def run_case(chk, stream, case):
             _in_thread(op, th)
         except tracked.BlockedForever as e:
             res, err = "blocked", e
-        except Exception as e:
+        except (Exception, Interrupted) as e:
             res, err = "raised", e
         bottom.armed = top.armed = False
+        bottom.interrupt = False
         if bottom.write_failed and hasattr(noise._wa_noiseprotocol._transport, "written"):
             bottom.write_failed = False
             # a failed socket write means the connection is gone: the next session starts with fresh cipher states (message numbers restart)
